@@ -36,6 +36,7 @@ type World struct {
 
 	phiBusy     map[*ssa.Phi]bool
 	absorbMemo  map[*ssa.Function]bool
+	renamed     map[*ssa.Function]string
 	paramCtx    map[*ssa.Parameter]ssa.Value // bindings of the helper call being analysed in line (absorb.go)
 	callSitesOf map[*ssa.Function][]*ssa.Call
 	cg          *callgraph.Graph
@@ -147,6 +148,7 @@ func (w *World) collectFuncs() {
 		}
 		add(fn)
 	}
+	w.resolveRenames()
 	sort.Slice(w.Funcs, func(i, j int) bool { return w.name(w.Funcs[i]) < w.name(w.Funcs[j]) })
 	for _, fn := range w.Funcs {
 		w.byName[w.name(fn)] = fn
@@ -161,6 +163,26 @@ func (w *World) collectFuncs() {
 // "BloomSearchEngine.handleFlush$1", "sendWithContext[error]", "os.Rename",
 // "(*os.File).Sync".
 func (w *World) name(fn *ssa.Function) string {
+	if fn == nil {
+		return "<nil>"
+	}
+	if old, ok := w.renamed[fn]; ok {
+		return old
+	}
+	if p := fn.Parent(); p != nil {
+		// a closure of a renamed function keeps its position under the old name
+		top := p
+		for top.Parent() != nil {
+			top = top.Parent()
+		}
+		if old, ok := w.renamed[top]; ok {
+			return old + strings.TrimPrefix(w.rawName(fn), w.rawName(top))
+		}
+	}
+	return w.rawName(fn)
+}
+
+func (w *World) rawName(fn *ssa.Function) string {
 	if fn == nil {
 		return "<nil>"
 	}
